@@ -217,6 +217,12 @@ def oracle_wrongparams(k1, k2, variant, pw, idA, idB, x):
         else:
             p2 = C.params_by_name("I2048" if nm != "I2048" else "I3072")
         worlds.append((nm, p1, p2))
+        if k1 != k2:
+            # wrong role combined with every kind of parameter relation (role x parameters cross product)
+            d0 = C.params_by_name(nm)
+            eq = _Params(g, M=b"x", N=b"x", S=b"x")
+            worlds += [(nm, d0, _Params(g, M=b"N", N=b"M")), (nm, eq, eq), (nm, d0, _Params(g, M=b"symmetric", N=b"symmetric")),
+                       (nm, _Params(g, S=b"M"), d0), (nm, _Params(g, M=b"N", N=b"M"), d0)]
     for nm, p1, p2 in worlds:
         q = C.group_order(p1.group)
 
